@@ -693,7 +693,9 @@ static void runConcurrent(pbt::Case &c, const ConcPlan &p)
       // lost wake-up: the call was already in progress when onClose was delivered and still
       // returned (whatever it returned) more than 1.5 s after it - only its own timeout ended it
       std::uint64_t cf = closeFiredAtNs.load(), endNs = nowNs();
-      if (!out.ok && cf != 0 && startNs < cf && endNs > cf && endNs - cf > 1500000000ull && failSig.empty())
+      // ... and it ended at its own deadline (a late but real wake-up ends earlier): tmoMs >= 2000 only
+      bool ranToDeadline = tmoMs >= 2000 && el >= std::chrono::milliseconds(tmoMs) - std::chrono::milliseconds(50);
+      if (!out.ok && ranToDeadline && cf != 0 && startNs < cf && endNs > cf && endNs - cf > 1500000000ull && failSig.empty())
       {
         failSig = "C03/parked-receiver-not-woken-by-close";
         failWhat = pbt::Fmt() << "receiveSync(timeout " << tmoMs << " ms) was parked when onClose was delivered and returned "
